@@ -663,6 +663,17 @@ func main() {
 		}
 		return true, fmt.Sprintf("ops=%v: read #%d of op %d equals the wrapped graph's answer", c.Ops, c.Read, c.FailOp)
 	})
+	r.Replayer("pair", func(raw json.RawMessage) (bool, string) {
+		var c pairCase
+		if err := json.Unmarshal(raw, &c); err != nil {
+			return false, err.Error()
+		}
+		n, bad := runPair(c, true)
+		if len(bad) > 0 {
+			return false, fmt.Sprintf("%d of %d reads differ from the wrapped graph; first:\n %s", len(bad), n, bad[0])
+		}
+		return true, fmt.Sprintf("%d reads equal the wrapped graph's answers", n)
+	})
 	r.Replayer("sched", replayConcurrent) // cases of the concurrent part (cmd/c19c, see concurrent.go)
 	r.MaybeReplay()
 	conc := startConcurrent(r) // runs next to the sequential search, collected before Finish
@@ -675,6 +686,8 @@ func main() {
 	r.Assume("the oracle is the wrapped memory graph itself (obtained from the same memory store), asked the same call at that moment; its answers are reused until the next write (reads do not write)")
 	r.Assume("model states (content, per handle the cache-filling events since its last write; h2/h3 interchangeable) are used only to deduplicate; every state's shortest path is replayed on a fresh store, wrapper and handles")
 	r.Assume("answers are compared as sequences of structural keys, error text and channel-closed flag")
+
+	levelPairs(r)
 
 	nopts := r.Pick(11, 20)
 	reads := grid(nopts)
